@@ -1,0 +1,46 @@
+//! RIB HTTP query API (`units::rib_unit::http::PrefixesApi`), property C11.
+//!
+//! Add-only (feature `verif-hooks`): builds the real `PrefixesApi` through
+//! its own constructor over the store of a runner made with
+//! `RibUnitRunner::verif_new`, with caller supplied query limits (in
+//! production they come from the unit's configuration).
+use std::sync::Arc;
+
+use arc_swap::ArcSwap;
+
+pub use crate::http::ProcessRequest;
+pub use crate::units::rib_unit::unit::{MoreSpecifics, QueryLimits};
+pub use crate::units::rib_unit::verif::{PrefixesApi, Rib, RibUnitRunner};
+/// The HTTP types `ProcessRequest` speaks.
+pub use hyper;
+
+use crate::common::frim::FrimMap;
+use crate::ingress::Register;
+use crate::units::RibType;
+
+/// A `PrefixesApi` for the physical RIB of `runner`, answering below
+/// `http_api_path`, exactly as `RibUnitRunner::new` builds it.
+pub fn prefixes_api(
+    runner: &RibUnitRunner,
+    http_api_path: &str,
+    shortest_prefix_ipv4: u8,
+    shortest_prefix_ipv6: u8,
+    ingress_register: Arc<Register>,
+) -> PrefixesApi {
+    let rib = Arc::new(ArcSwap::new(runner.verif_rib()));
+    let limits = QueryLimits {
+        more_specifics: MoreSpecifics {
+            shortest_prefix_ipv4,
+            shortest_prefix_ipv6,
+        },
+    };
+    PrefixesApi::new(
+        rib,
+        Arc::new(http_api_path.to_string()),
+        Arc::new(ArcSwap::from_pointee(limits)),
+        RibType::Physical,
+        None,
+        Arc::new(FrimMap::default()),
+        ingress_register,
+    )
+}
